@@ -63,6 +63,7 @@ def grids(tier):
     pct = dec_range('-10', '150', '0.01')[::stride] + ['0', '100', '99.99', '100.01', '0.01', '1000000000', '-1000000']
     kel = ['0', '1500', '2700', '2700.4', '2700.5', '9000', '65535', '65536', '70000.25', '-5']
     dur = ['0', '0.0004', '0.0005', '0.001', '0.0015', '0.25', '1.5', '2', '59.999', '3600', '86400.001',
+           '0.0006', '0.0009', '0.0016', '1.9996', '2.0007', '59.9998', '1.0003',        # nearest, not truncated
            '4294967', '4294967.295', '4294967.296', '4294968', '5000000', '-1', '-0.001']
     return hue, pct, kel, dur
 
